@@ -120,7 +120,11 @@ def replay_path_init(rec):
             elif tf("isfifo"):
                 os.mkfifo(target)
             else:
-                note = "model has an existing path that is neither file, directory nor fifo: using a socket-less stand-in is not possible; fixture uses a fifo-free dangling entry"
+                import socket
+                sk = socket.socket(socket.AF_UNIX)
+                sk.bind(target)  # exists, but neither file, directory nor fifo
+                sk.close()
+                note = "existing path that is neither file, directory nor fifo: a unix socket"
             if os.path.lexists(target):
                 bits = (0o444 if tf("R") else 0) | (0o222 if tf("W") else 0) | (0o111 if tf("X") else 0)
                 os.chmod(target, bits)
@@ -128,7 +132,7 @@ def replay_path_init(rec):
             os.chmod(parent, 0o777 if tf("parent_W") else 0o555)
         os.chmod(base, 0o777 if (tf("parent_W") or not tf("parent_isdir")) else 0o555)
         out = _run_child(mode, "target" if parent == base else os.path.join("nodir", "target"), base)
-        out["fixture"] = {"mode": mode, "exists": tf("exists"), "kind": "dir" if tf("isdir") else "file" if tf("isfile") else "fifo" if tf("isfifo") else "missing", "note": note}
+        out["fixture"] = {"mode": mode, "exists": tf("exists"), "kind": "dir" if tf("isdir") else "file" if tf("isfile") else "fifo" if tf("isfifo") else "socket" if tf("exists") else "missing", "note": note}
         # restore permissions so the temp dir can be removed
         for root, dirs, files in os.walk(tmp):
             for d in dirs:
